@@ -1,10 +1,10 @@
 #!/bin/bash
-# Engine self-test for the goroutine scheduler: toy harnesses with known verdicts.
+# Engine self-test for the goroutine scheduler and the happens-before race detector: toy harnesses with known verdicts.
 cd /verif; export PATH=/opt/veriftools/go1.26.8/bin:$PATH GOTOOLCHAIN=local GOFLAGS=-mod=mod GOPROXY=off
 out=$(timeout 600 bin/gosym run -id SELF -harness /verif/harness/_selftest_sched -tier quick -evidence /tmp/gosym_selftest.json 2>&1 | grep "^harness")
 rm -rf /tmp/gosym_selftest.json /verif/replays/SELF
 fail=0
-for want in "verifH_ST_channel holds" "verifH_ST_deadlock VIOLATED" "verifH_ST_goroutine_panic VIOLATED" "verifH_ST_mutex_counter holds" "verifH_ST_once holds" "verifH_ST_toctou VIOLATED"; do
+for want in "verifH_ST_channel holds" "verifH_ST_deadlock VIOLATED" "verifH_ST_goroutine_panic VIOLATED" "verifH_ST_mutex_counter holds" "verifH_ST_once holds" "verifH_ST_toctou VIOLATED" "verifH_RT_plain_race VIOLATED" "verifH_RT_mutex_ok holds" "verifH_RT_channel_handoff_ok holds" "verifH_RT_once_publish_ok holds" "verifH_RT_half_locked VIOLATED"; do
   set -- $want
   echo "$out" | grep -q "harness $1 *$2" || { echo "SELFTEST FAIL: $1 expected $2"; fail=1; }
 done
